@@ -135,6 +135,7 @@ func Run(r *mc.Run) {
 		}
 	}
 	orders := !r.Quick()
+	MapOrderBound = 1 // matrix: every single scan in every other order (pairs of scans are explored in map-orders below)
 	r.Scenario("matrix-6x6", map[string]interface{}{
 		"compressions": comps, "control_entry_lists": controlEntrySets, "paragraph_models": []string{"minimal", "full", "custom"},
 		"data_file_sets": []string{"empty", "one file", "dir + file with binary bytes + empty file"}, "extras": extras, "layouts": []string{"canonical", "data-before-control"},
